@@ -529,6 +529,10 @@ PROPS["C13"] = dict(
                "CBMC's IEEE-754 model.",
 )
 
+WRITER_LOOPS = [("fen_writer_body", r"for file in File::ALL", 9), ("fen_writer_body", r"for rank in Rank::ALL", 9),
+                ("piece_at", r"for piece in Piece::ALL", 8), ("piece_at", r"for color in Color::ALL", 3),
+                ("From<&board::Board>", r"for square in Square::ALL", 65),
+                ("Board::new", r"for \w+ in Piece::ALL", 8), ("Board::new", r"for \w+ in Color::ALL", 3)]
 PROPS["C11"] = dict(
     obligations=[
         K("c11", "c11_castling_field_parse_inverse", desc="the castling-field parser inverts the canonical spelling (KQkq order or '-') for all 16 sets",
@@ -555,16 +559,17 @@ PROPS["C11"] = dict(
         K("c11w", "c11_writer_fields_contract", desc="the FEN WRITER (whole body extracted verbatim, write! bound to a byte sink): for both sides, all 16 castling "
           "sets, every en-passant target or none and both clocks (std's decimal text kept abstract) the written line is the canonical line byte for byte "
           "(placement: two kings)",
-          functions=["<Fen as IntoNotation<State>>::into_notation (body, extracted)"], timeout=3000, heavy=True),
+          functions=["<Fen as IntoNotation<State>>::into_notation (body, extracted)"], timeout=3000, heavy=True, unwindset_rules=WRITER_LOOPS),
     ] + [
         K("c11w", "c11_writer_placement_rank_%d" % r, kind="bounded", bound="rank %d fully symbolic (13^8 contents), the other seven ranks empty" % r,
           desc="the FEN WRITER's placement field: pieces as letters, runs of empty squares merged into one digit, '/' between ranks, ranks 8 to 1",
-          functions=["<Fen as IntoNotation<State>>::into_notation (body, extracted)"], timeout=3000, heavy=True, tier=("quick" if r in (1, 8) else "thorough"))
+          functions=["<Fen as IntoNotation<State>>::into_notation (body, extracted)"], timeout=3000, heavy=True, tier=("quick" if r in (1, 8) else "thorough"),
+          unwindset_rules=WRITER_LOOPS)
         for r in range(1, 9)
     ] + [
         K("c11w", "c11_writer_placement_ranks_%s" % r, kind="bounded", bound="two adjacent ranks fully symbolic, the other six empty",
           desc="the FEN WRITER's placement field across a rank boundary (the run of empty squares is not carried over)",
-          functions=["<Fen as IntoNotation<State>>::into_notation (body, extracted)"], timeout=5400, heavy=True, tier="experimental")
+          functions=["<Fen as IntoNotation<State>>::into_notation (body, extracted)"], timeout=5400, heavy=True, tier="experimental", unwindset_rules=WRITER_LOOPS)
         for r in ["1_2", "4_5", "7_8"]
     ] + [
         K("c11", "c11_castling_field_write_and_read_back", tier="experimental", desc="both sides, all 16 castling sets: the writer emits exactly the canonical line "
